@@ -155,6 +155,20 @@ func cmdRand(o *Out, p *Package, j Job) {
 				o.Count("rand-values-round-tripped", 1)
 			}
 		}
+		// a union whose members all have large domains: N calls drawing fresh member values give
+		// (almost surely) N distinct values; a generator that only ever returns one value per
+		// member (a table of member values built once) shows at most len(members) of them
+		if ms := u.Unions[rt]; rt.Kind() == reflect.Interface && len(ms) > 0 && calls >= 2*len(ms) && calls >= 6 && len(distinct) >= 2 && len(distinct) <= len(ms) {
+			rich := true
+			for _, m := range ms {
+				if !varies(u, m, map[reflect.Type]bool{}) || smallDomainOrConst(u, m, 0) {
+					rich = false
+				}
+			}
+			if rich {
+				o.Violation(p.ID, "rand-union-values-frozen", fmt.Sprintf("%s() returned only %d distinct values on %d calls for a union of %d members with large domains: the member values do not vary from call to call", name, len(distinct), calls, len(ms)))
+			}
+		}
 		if canVary && len(distinct) < 2 && calls >= 8 {
 			o.Violation(p.ID, "rand-constant", fmt.Sprintf("%s() returned the same value on %d calls although its type %s admits more than one value", name, calls, rt))
 		}
